@@ -292,16 +292,19 @@ def write_region(E, t, cond, val, node=None):
         return
     if "slice_of" in t.attrs:
         b, dim, s, e, step = t.attrs["slice_of"]
-        if step != 1:
-            raise Unsupported("write through strided view")
+        if is_sym(step) or step < 1:
+            raise Unsupported("write through a view with a symbolic step")
 
         def inv(j):
             i = list(j)
             i[dim] = zi(j[dim]) - zi(s) if (is_sym(s) or is_sym(j[dim]) or s != 0) else j[dim]
+            if step != 1:
+                i[dim] = zi(i[dim]) / step    # only read where bcond holds: (j - s) is a non-negative multiple of step
             return i
 
         def bcond(j):
-            return z3.And(zi(j[dim]) >= zi(s), zi(j[dim]) < zi(e), cond(inv(j)))
+            on_grid = [(zi(j[dim]) - zi(s)) % step == 0] if step != 1 else []
+            return z3.And(zi(j[dim]) >= zi(s), zi(j[dim]) < zi(e), *on_grid, cond(inv(j)))
 
         write_region(E, b, bcond, lambda j: val(inv(j)), node)
         return
